@@ -102,9 +102,10 @@ func propC27() *simkit.Property {
 }
 
 type c27 struct {
-	r   *simkit.R
-	w   *world
-	pns []*pnode
+	r    *simkit.R
+	w    *world
+	pns  []*pnode
+	lost map[*simObj]bool // no copy left anywhere when the faults stopped
 }
 
 func (c *c27) waitParked(pn *pnode) {
@@ -169,6 +170,9 @@ func (c *c27) state() string {
 func (c *c27) missing() []string {
 	var res []string
 	for _, o := range c.w.objs {
+		if c.lost[o] {
+			continue
+		}
 		for i, list := range o.pl.repLists {
 			for _, n := range list[:min(int(o.pl.copies[i]), len(list))] {
 				if c.w.nodes[n].store[o.addr] == nil {
@@ -227,12 +231,16 @@ func runC27(r *simkit.R) {
 		r.Logf("object %s: %s, placement%s, initial holders %v", o.name, typ, pl, w.holders(o.addr))
 	}
 
-	c := &c27{r: r, w: w}
+	c := &c27{r: r, w: w, lost: map[*simObj]bool{}}
 	ctx, cancel := context.WithCancel(context.Background())
 	for i := 0; i < n; i++ {
 		pn := w.newPolicer(i, true, 1)
 		pn.st.gate = make(chan struct{})
-		pn.st.firstSkip = r.Intn(nobj + 1)
+		if faultRounds > 0 {
+			// the policer starts listing at a random address: its first cycle is partial
+			// (only while faults are on, so that every round counted by the oracle is a full one)
+			pn.st.firstSkip = r.Intn(nobj + 1)
+		}
 		c.pns = append(c.pns, pn)
 	}
 	r.OnCleanup(func() {
@@ -250,41 +258,73 @@ func runC27(r *simkit.R) {
 	w.faultsOn = false
 	w.heal()
 	r.Logf("faults stop; state:%s", c.state())
-
-	budget := n * nobj * 3
-	rounds := 0
-	for len(c.missing()) > 0 {
-		if rounds >= budget {
-			m := c.missing()
-			r.Failf("policer-liveness", livenessSig27(w), "%d full rounds after the last fault (budget nodes x objects x 3 = %d) still: %s", rounds, budget, strings.Join(m, "; "))
+	// An object whose last copy was removed while nodes were failing cannot be restored by anybody:
+	// that is a matter of C26 (removal safety, findings FP01/FP02), not of this liveness property,
+	// whose premise is that a copy exists.  Such objects are left out (and counted).
+	for _, o := range w.objs {
+		if len(w.holders(o.addr)) == 0 {
+			c.lost[o] = true
+			r.Probe("an object lost its last copy during the fault phase (left out of the liveness oracle, see C26)")
+			r.Logf("%s has no copy left: left out", o.name)
 		}
+	}
+
+	// Bounded liveness.  R = nodes x objects x 3 full rounds to get every primary node its copy;
+	// by round R+1 at the latest a full round must have been quiet (zero replication calls) with
+	// all primary copies in place.  The statement does not say that the very first round after
+	// the primaries are satisfied must already be quiet, so a late extra replication is accepted
+	// (counted as a probe) as long as the quiet round comes within the budget.
+	budget := n * nobj * 3
+	rounds, satisfiedAt := 0, -1
+	if len(c.missing()) == 0 {
+		satisfiedAt = 0
+	}
+	for {
+		if rounds > budget {
+			r.Failf("policer-liveness", "replication goes on after every primary node holds its copy", "every primary node held its copy after round %d, yet each of the %d rounds since then issued replication calls (budget nodes x objects x 3 + 1 = %d rounds); state now:%s", satisfiedAt, rounds-satisfiedAt, budget+1, c.state())
+		}
+		before, removalsBefore := w.putCalls, w.removals
 		c.round(fmt.Sprintf("R%d", rounds))
 		rounds++
+		m := c.missing()
+		if len(m) == 0 && satisfiedAt < 0 {
+			satisfiedAt = rounds
+		}
+		if len(m) > 0 && satisfiedAt >= 0 {
+			r.Failf("policer-liveness", "a primary copy disappears again after all primary nodes had their copies", "after round %d: %s", rounds, strings.Join(m, "; "))
+		}
+		if len(m) > 0 && rounds >= budget {
+			r.Failf("policer-liveness", "primary nodes still lack copies after the round budget", "%d full rounds after the last fault (budget nodes x objects x 3 = %d) still: %s", rounds, budget, strings.Join(m, "; "))
+		}
+		if len(m) == 0 {
+			if w.putCalls == before {
+				if w.removals > removalsBefore {
+					r.Probe("redundant copies removed in the quiet round")
+				}
+				break
+			}
+			if satisfiedAt < rounds {
+				r.Probe("replication issued although every primary node already held its copy")
+			}
+		}
 	}
-	r.Logf("converged after %d rounds", rounds)
-	if rounds > 0 {
+	r.Logf("primary copies in place after round %d, quiet round %d", satisfiedAt, rounds)
+	if satisfiedAt > 0 {
 		r.Probe("replicas restored after faults stopped")
 	}
-	if rounds > 2 {
-		r.Probe("convergence needed more than two rounds")
+	if satisfiedAt > 2 {
+		r.Probe("restoring needed more than two rounds")
 	}
+	// one more round: still quiet, still in place
 	before := w.putCalls
-	removalsBefore := w.removals
 	c.round("extra")
 	if d := w.putCalls - before; d != 0 {
-		r.Failf("policer-liveness", "replication goes on after every primary node holds its copy", "all primary nodes held their copies after %d rounds, yet the next full round issued %d replication calls; state now:%s", rounds, d, c.state())
+		r.Failf("policer-liveness", "replication resumes after a quiet round", "a full round without replication was followed by a round with %d replication calls; state now:%s", d, c.state())
 	}
 	if m := c.missing(); len(m) > 0 {
-		r.Failf("policer-liveness", "a primary copy disappears again after convergence", "%s", strings.Join(m, "; "))
-	}
-	if w.removals > removalsBefore {
-		r.Probe("redundant copies still being removed in the round after convergence")
+		r.Failf("policer-liveness", "a primary copy disappears again after all primary nodes had their copies", "after the extra round: %s", strings.Join(m, "; "))
 	}
 	if w.fired > 0 || w.putCalls > 0 || w.removals > 0 {
 		r.Nontrivial()
 	}
-}
-
-func livenessSig27(w *world) string {
-	return "primary nodes still lack copies after the round budget"
 }
